@@ -97,7 +97,7 @@ def km_for(case, cap):
     from bob.learn.em import KMeansMachine
 
     ini = case["init"]
-    method = np.array(ini["init"], dtype=float, copy=True) if ini["method"] == "array" else ini["method"]
+    method = np.array(ini["init"], copy=True) if ini["method"] == "array" else ini["method"]
     return KMeansMachine(case["k"], init_method=method, max_iter=cap, convergence_threshold=None,
                          random_state=int(ini["seed"]))
 
